@@ -105,6 +105,28 @@ def side_case(seed):
     return None, desc
 
 
+def f30_witness():
+    """known finding F30, fixed input: a genuine truncation (max_rank below the bond rank / a threshold above the smallest ratio).
+    TT.svd truncates inside the right-orthonormalisation sweep, before the left part is orthonormal, so the kept singular
+    values are not the leading singular values of the unfolding"""
+    rng = np.random.default_rng(777)
+    ranks = [1, 2, 6, 2, 1]
+    t = TT([rng.standard_normal((ranks[i], 4, 1, ranks[i + 1])) for i in range(4)])
+    sref = np.linalg.svd(dense(t.cores).reshape(16, 16), compute_uv=False)
+    msgs = []
+    try:
+        _, s1, _ = t.svd(2, max_rank=3)
+        if len(s1) != 3 or not close(s1, sref[:3], 1e-8):
+            msgs.append('svd(2, max_rank=3) returns %s, the leading singular values of the unfolding are %s' % (np.round(s1, 4), np.round(sref[:3], 4)))
+        _, s2, _ = t.svd(2, threshold=0.3)
+        k = int(np.sum(sref / sref[0] > 0.3))
+        if len(s2) != k or not close(s2, sref[:k], 1e-8):
+            msgs.append('svd(2, threshold=0.3) returns %s, expected %s' % (np.round(s2, 4), np.round(sref[:k], 4)))
+    except Exception as e:
+        msgs.append('raised %r' % (e,))
+    return '; '.join(msgs) if msgs else None
+
+
 def run(ctx):
     quick = ctx.tier == 'quick'
     lib.stage_proof(ctx, PROP_FILES, ['Check/C05.vo'])
@@ -140,6 +162,11 @@ def run(ctx):
         ctx.evaluations += 1
         if msg:
             ctx.fail('svd/pinv: ' + msg, {'gen': 'side_case', 'case_seed': cs, 'case': desc}, tags={'op': 'svd-side', 'msg': msg[:40]})
+    msg = f30_witness()
+    ctx.side_cases += 1
+    ctx.evaluations += 1
+    if msg:
+        ctx.fail('svd with a genuine truncation: ' + msg, {'gen': 'f30_witness'}, tags={'op': 'svd', 'truncation_active': True})
     return ctx.finish(level='proof', checker_cmd='make -C coq Props/C05.vo Check/C05.vo && coqc Props/C05.v', trusted=TRUSTED, explanation=RULE)
 
 
